@@ -1,4 +1,5 @@
 import Gleece.Properties.C06
+import Gleece.Properties.Serve
 #print axioms Gleece.IR.required_rule
 #print axioms Gleece.IR.docParams_names
 #print axioms Gleece.IR.docParams_sound
@@ -8,3 +9,4 @@ import Gleece.Properties.C06
 #print axioms Gleece.IR.valueType_cases
 #print axioms Gleece.Text.splitOn_append_sep
 #print axioms Gleece.IR.reduced_param_required
+#print axioms Gleece.Serve.reduceRoute_param_order
